@@ -78,7 +78,14 @@ def gen_cases(rng, tier):
                 if w == 8 and kind == "len":
                     # counts whose product with the item size wraps modulo 2^64 to something small
                     vals |= {2 ** 64 // sz + k for sz in (2, 4, 8, 16) for k in (0, 1, 2)}
-                if j >= 1:
+                if kind == "disc" and w > 1:
+                    # a discriminant wider than one byte: the same LOW byte under a non-zero high byte (an undeclared
+                    # value that a reader of the first byte only would take for the live variant), and other variants' low bytes
+                    wide = {cur % 256 + 256 * hi for hi in (1, 2, 255) if cur % 256 + 256 * hi < 256 ** w}
+                    vals |= wide
+                    if j >= 1:
+                        vals = set(wide)
+                elif j >= 1:
                     vals = [rng.choice(sorted(vals))] + ([2 ** 64 // 4 + rng.below(3)] if (w == 8 and kind == "len") else [])
                 for x in sorted(vals):
                     if x == cur:
@@ -304,6 +311,48 @@ def _counts_match(t, v, bs, pos=0):
     return True, None
 
 
+def _undeclared_discriminant(ty, bs):
+    """Reads the input strictly from the front as far as the layout is decided by the bytes read so far - fixed-size
+    fields, length-prefixed lists of fixed-size items, enums, structs of these - and reports the first enum whose
+    discriminant bytes are not one of the declared discriminants (None: none found, or the walk had to stop).  The enum's
+    payload is walked too (it follows the discriminant directly)."""
+    pos = [0]
+
+    def walk(t):
+        k = t[0]
+        if k == "F":
+            pos[0] += U.fsize(t[1])
+            return pos[0] <= len(bs)
+        if k == "L":
+            lw = t[2]
+            if pos[0] + lw > len(bs):
+                return False
+            n = U.unle(bs[pos[0]:pos[0] + lw])
+            pos[0] += lw + n * U.fsize(t[1])
+            return pos[0] <= len(bs)
+        if k == "S":
+            for ft in t[1]:
+                r = walk(ft)
+                if r is not True:
+                    return r
+            return True
+        if k == "E":
+            rw = t[1]
+            if pos[0] + rw > len(bs):
+                return False
+            d = U.unle(bs[pos[0]:pos[0] + rw])
+            decl = dict(t[2])
+            if d not in decl:
+                return ("enum", pos[0], d, sorted(decl))
+            pos[0] += rw
+            return walk(decl[d])
+        return False          # RemainingBytes / lists of unsized elements: the position of what follows is not decided here
+
+    r = walk(ty)
+    return r if isinstance(r, tuple) else None
+
+
+
 def predicate(c, obs):
     if obs is None or (obs and obs[0] == "UNPARSEABLE"):
         return "no observation"
@@ -321,6 +370,10 @@ def predicate(c, obs):
             return "the owned conversion produced a String that is not valid UTF-8"
         if idx not in NOT_COMPARED and not _counts_match(ty, v, bs)[0]:
             return "the owned conversion produced a List whose item count is not the count its length prefix announces"
+        bad = _undeclared_discriminant(ty, bs) if idx not in NOT_COMPARED else None
+        if bad:
+            return ("the owned conversion accepted an input whose enum discriminant at byte %d is %d; the declared "
+                    "discriminants are %s" % (bad[1], bad[2], bad[3]))
     # keyed containers at the top level (their owned conversion is not compared with the model: BTreeMap / BTreeSet order):
     # an input whose item list is structurally readable and holds an item with a forbidden bit pattern must not convert
     # (the Rust value would silently be normalised, so the check reads the INPUT bytes)
